@@ -557,6 +557,11 @@ static void update_offset(printbuffer * const buffer)
 static cJSON_bool compare_double(double a, double b)
 {
     double maxVal = fabs(a) > fabs(b) ? fabs(a) : fabs(b);
+    if (maxVal > DBL_MAX)
+    {
+        /* at least one operand is infinite: a finite number never equals an infinite one */
+        return (a == b);
+    }
     return (fabs(a - b) <= maxVal * DBL_EPSILON);
 }
 
